@@ -303,7 +303,15 @@ statechart:
                 bound.append((form, ready))
         for k in range(rnd.randint(4, 14)):
             c = rnd.random()
-            if c < 0.3:
+            if c < 0.06:
+                # the followed interpreter is given another clock, which shows an earlier time: its next step happens
+                # at that time, and that is what a SynchronizedClock shows from then on
+                t = rnd.randint(0, t)
+                clock = SimulatedClock()
+                clock.time = t
+                it.clock = clock
+                what = 'interpreter given a new clock showing %d' % t
+            elif c < 0.3:
                 t += rnd.randint(1, 5)
                 clock.time = t
                 what = 'clock moved to %d' % t
